@@ -16,11 +16,16 @@ import (
 // C18: path rebasing maps remote paths to the right local files and classes.
 //
 // Streams:
-//   layout   : a generated file-system layout (GOROOT, GOPATHs with src and
-//              pkg/mod, go.mod modules, "go run" files) materialised under a
-//              temporary directory, remote-root renamings, a dump printed from
-//              it and scanned end to end with GuessPaths. Direct oracle = the
-//              generating layout.
+//   layout   : a generated file-system layout (GOROOT, disjoint GOPATHs with
+//              src and pkg/mod, go.mod modules, "go run" files) materialised
+//              under a temporary directory, remote-root renamings, a dump
+//              printed from it and scanned end to end with GuessPaths. Direct
+//              oracle = the generating layout. No root is nested in another.
+//   nested   : the same generator with remote GOPATHs nested in another one's
+//              src and go.mod modules nested in another module. Outside the
+//              property's quantifier (disjoint roots): only determinism (7
+//              identical runs) and model correspondence are checked; how the
+//              result relates to the generating layout is counted (observed:…).
 //   hostile  : constructed snapshots (hook) with unclean, relative, colliding,
 //              non-UTF-8 paths, preset locations and roots, multi-frame
 //              CreatedBy; only the unconditional invariants are checked.
@@ -118,8 +123,10 @@ func c18Pkg(importPath string) string {
 }
 
 // genC18Layout draws a layout without accidental suffix collisions: import
-// paths, module names and file names are distinct per root.
-func genC18Layout(r *Rng, base string) *c18Layout {
+// paths, module names and file names are distinct per root. With allowNested
+// false no root lies under another root (the property's layouts); with true a
+// remote GOPATH may sit in another one's src and a module in another module.
+func genC18Layout(r *Rng, base string, allowNested bool) *c18Layout {
 	l := &c18Layout{Base: base, Files: map[string]string{}, Tags: map[string]bool{}}
 	add := func(root *c18Root, kind, sep, rel string, exists bool, pkg string) {
 		f := c18Frame{Remote: root.Remote + sep + rel, Kind: kind, Root: root, Sep: sep, Rel: rel, Exists: exists, Pkg: pkg, Name: r.Pick([]string{"F", "run", "(*T).Do", "init.0", "Serve.func1"})}
@@ -157,10 +164,13 @@ func genC18Layout(r *Rng, base string) *c18Layout {
 		root := &c18Root{Kind: "gopath", Local: fmt.Sprintf("%s/gp%d", base, k)}
 		opts := []string{fmt.Sprintf("/c18remote/gp%d", k), fmt.Sprintf("/home/c18ci/gopath%d", k), root.Local}
 		if k > 0 {
-			// the F7 shape: a remote GOPATH nested in another one's src, and a
-			// sibling whose name extends another root's name
+			// a sibling whose name extends another root's name (disjoint trees)
+			opts = append(opts, gps[0].Remote+strings.Repeat("x", k))
+		}
+		if k > 0 && allowNested {
+			// the F7 shape: a remote GOPATH nested in another one's src
 			nest := r.Pick([]string{"nested", "aaa", "zzz/deep"})
-			opts = append(opts, gps[0].Remote+"/src/"+nest+fmt.Sprintf("/gp%d", k), gps[0].Remote+"/src/"+nest+fmt.Sprintf("/gp%d", k), gps[0].Remote+strings.Repeat("x", k))
+			opts = append(opts, gps[0].Remote+"/src/"+nest+fmt.Sprintf("/gp%d", k), gps[0].Remote+"/src/"+nest+fmt.Sprintf("/gp%d", k))
 		}
 		root.Remote = opts[r.Intn(len(opts))]
 		if root.Remote == root.Local {
@@ -208,7 +218,7 @@ func genC18Layout(r *Rng, base string) *c18Layout {
 			}
 			add(root, "gomod", "/", rels[i], !r.Chance(1, 6), pkg)
 		}
-		if r.Chance(1, 4) {
+		if allowNested && r.Chance(1, 3) {
 			// a nested module whose name continues the outer one
 			in := &c18Root{Kind: "mod", Local: root.Local + "/inner", Mod: root.Mod + "/inner", Nested: true, Outer: root}
 			in.Remote = in.Local
@@ -236,7 +246,9 @@ func genC18Layout(r *Rng, base string) *c18Layout {
 		}
 	}
 	if r.Chance(1, 3) {
-		p := r.Pick([]string{"/tmp/go-build123/b001/_test/_testmain.go", "_test/_testmain.go", "/c18elsewhere/_test/_testmain.go"})
+		// the real path of the generated main and, less often, the bare relative
+		// form, which is outside the property and only observed
+		p := r.Pick([]string{"/tmp/go-build123/b001/_test/_testmain.go", "/tmp/go-build123/b001/_test/_testmain.go", "_test/_testmain.go", "/c18elsewhere/_test/_testmain.go"})
 		if len(gps) > 0 && r.Bool() {
 			// generated main that happens to sit under a mapped root
 			add(gps[0], "testmain", "/src/", fmt.Sprintf("example.com/p0/_test/_testmain.go"), true, "main")
@@ -595,23 +607,42 @@ type c18Want struct {
 	Loc    int
 }
 
-func runC18Layout(res *Result, pool *DrvPool, r *Rng, idx int) {
+// runC18Layout: with nested false the generating layout is the oracle; with
+// nested true (roots inside roots: outside the property) only determinism and
+// model correspondence are checked and the comparison with the layout is
+// counted as observations.
+func runC18Layout(res *Result, pool *DrvPool, r *Rng, idx int, nested bool) {
+	stream := "layout"
+	if nested {
+		stream = "nested"
+	}
 	base, err := os.MkdirTemp("", "verif-c18-")
 	if err != nil {
-		res.Disagree(Finding{Stream: "layout", What: "cannot create the scratch directory: " + err.Error()})
+		res.Disagree(Finding{Stream: stream, What: "cannot create the scratch directory: " + err.Error()})
 		return
 	}
 	defer os.RemoveAll(base)
-	l := genC18Layout(r, base)
+	l := genC18Layout(r, base, nested)
+	if !nested {
+		// the oracle-checked stream must not contain a root inside a root
+		for _, a := range l.Roots {
+			for _, b := range l.Roots {
+				if a != b && (a.Nested || strings.HasPrefix(a.Remote, b.Remote+"/") || strings.HasPrefix(a.Local, b.Local+"/")) {
+					res.Disagree(Finding{Stream: stream, What: "generator bug: root " + a.Remote + " is nested in " + b.Remote})
+					return
+				}
+			}
+		}
+	}
 	if err := l.materialise(); err != nil {
-		res.Disagree(Finding{Stream: "layout", What: "cannot materialise the layout: " + err.Error()})
+		res.Disagree(Finding{Stream: stream, What: "cannot materialise the layout: " + err.Error()})
 		return
 	}
 	gs, inStack := l.dump(r)
 	txt := GenCfg(r).Dump(gs)
 	preS, pmsg := c18ScanE2E(txt, l.Goroot, l.Gopaths, false)
 	if preS == nil {
-		res.Violation(Finding{Stream: "layout", What: "generated dump did not scan: " + pmsg, Op: map[string]interface{}{"text": txt}})
+		res.Violation(Finding{Stream: stream, What: "generated dump did not scan: " + pmsg, Op: map[string]interface{}{"text": txt}})
 		return
 	}
 	pre := mGs(preS.Goroutines)
@@ -620,29 +651,36 @@ func runC18Layout(res *Result, pool *DrvPool, r *Rng, idx int) {
 	// end to end, then several times through the hook: identical results
 	e2e, pmsg := c18ScanE2E(txt, l.Goroot, l.Gopaths, true)
 	if e2e == nil {
-		res.Violation(Finding{Stream: "layout", What: "ScanSnapshot with GuessPaths panicked or returned nothing: " + pmsg, Op: describe})
+		res.Violation(Finding{Stream: stream, What: "ScanSnapshot with GuessPaths panicked or returned nothing: " + pmsg, Op: describe})
 		return
 	}
 	first := c18Guess(pre, l.Goroot, l.Gopaths, "")
 	if first.Panic != "" {
-		res.Violation(Finding{Stream: "layout", What: "guessPaths panicked: " + first.Panic, Op: describe})
+		res.Violation(Finding{Stream: stream, What: "guessPaths panicked: " + first.Panic, Op: describe})
 		return
 	}
 	ref := first
 	ref.OK = false
 	e := c18OutOf(e2e, false)
 	if jsonStr(e) != jsonStr(ref) {
-		res.Violation(Finding{Stream: "layout", What: "ScanSnapshot(GuessPaths) and guessPaths on the scanned snapshot differ", Op: describe, Expected: e, Got: ref})
+		res.Violation(Finding{Stream: stream, What: "ScanSnapshot(GuessPaths) and guessPaths on the scanned snapshot differ", Op: describe, Expected: e, Got: ref})
 	}
 	for k := 0; k < 5; k++ {
 		again := c18Guess(pre, l.Goroot, l.Gopaths, "")
 		if jsonStr(again) != jsonStr(first) {
-			res.Violation(Finding{Stream: "layout", What: "two runs on the same input differ (map order)", Op: describe, Expected: first, Got: again})
+			res.Violation(Finding{Stream: stream, What: "two runs on the same input differ (map order)", Op: describe, Expected: first, Got: again})
 			break
 		}
 	}
 
-	// direct oracle: the generating layout
+	// direct oracle: the generating layout (nested stream: observations only)
+	violation := func(f Finding) {
+		if nested {
+			res.Count("observed:nested-layout-differs")
+			return
+		}
+		res.Violation(f)
+	}
 	detected := map[*c18Root]bool{}
 	for i := range l.Frames {
 		f := &l.Frames[i]
@@ -708,9 +746,11 @@ func runC18Layout(res *Result, pool *DrvPool, r *Rng, idx int) {
 			return ""
 		}
 		fail := func(msg string) {
-			if s := shadow(); s != "" {
+			if s := shadow(); s != "" && (nested || s == "createdby-only-root") {
+				// outside the property's quantifier (roots inside roots; a root
+				// that only a creator frame references): observed, not judged
 				if s == "nested-root-shadowed" {
-					// then the frame must be resolved exactly as the outer root dictates
+					// was the frame resolved as the enclosing root dictates?
 					o := f.Root.Outer
 					alt := *p
 					if o.Kind == "gopath" {
@@ -721,15 +761,13 @@ func runC18Layout(res *Result, pool *DrvPool, r *Rng, idx int) {
 						alt.Local, alt.Rel, alt.IP, alt.Loc = hb(remote), hb(rel), hb(o.Mod+"/"+lastDir(rel)), locGoMod
 					}
 					if jsonStr(c) != jsonStr(alt) {
-						res.Violation(Finding{Stream: "layout", What: remote + ": neither resolved by its own root nor by the enclosing one: " + msg, Op: describe, Expected: w, Got: c})
-						return
+						s = "nested-root-neither-own-nor-enclosing"
 					}
 				}
 				res.Count("observed:" + s)
-				res.KnownFinding("C18-"+s, Finding{Stream: "layout", What: remote + ": " + msg, Op: describe, Expected: w, Got: c})
 				return
 			}
-			res.Violation(Finding{Stream: "layout", What: remote + ": " + msg, Op: describe, Expected: w, Got: c})
+			violation(Finding{Stream: stream, What: remote + ": " + msg, Op: describe, Expected: w, Got: c})
 		}
 		if !w.Mapped {
 			if created && f != nil && f.Root != nil && f.Exists {
@@ -744,8 +782,8 @@ func runC18Layout(res *Result, pool *DrvPool, r *Rng, idx int) {
 				if strings.Count(remote, "/") < 2 {
 					// Call.init only fills DirSrc when the path has two slashes:
 					// the bare relative "_test/_testmain.go" is not recognised
+					// (the property speaks of the real path …/_test/_testmain.go)
 					res.Count("observed:testmain-bare-path")
-					res.KnownFinding("C18-testmain-bare-path", Finding{Stream: "layout", What: remote + ": generated test main is not Stdlib (DirSrc empty)", Op: describe, Got: c})
 				} else {
 					fail("generated test main is not Stdlib")
 				}
@@ -764,13 +802,15 @@ func runC18Layout(res *Result, pool *DrvPool, r *Rng, idx int) {
 				fail("mapped local path is not the existing file")
 			}
 		}
-		res.Count("frame:" + f.Kind)
+		res.Count(stream + "-frame:" + f.Kind)
 	})
-	if w := c18Invariants(pre, &first); w != "" {
-		res.Violation(Finding{Stream: "layout", What: w, Op: describe, Got: first})
-	}
-	if w := c18RootsArePrefixes(pre, &first); w != "" {
-		res.Violation(Finding{Stream: "layout", What: w, Op: describe, Got: first})
+	if !nested {
+		if w := c18Invariants(pre, &first); w != "" {
+			res.Violation(Finding{Stream: stream, What: w, Op: describe, Got: first})
+		}
+		if w := c18RootsArePrefixes(pre, &first); w != "" {
+			res.Violation(Finding{Stream: stream, What: w, Op: describe, Got: first})
+		}
 	}
 	// detected roots are exactly the generating ones
 	wantGoroot, wantGP, wantMods := "", map[string]string{}, map[string]string{}
@@ -789,27 +829,19 @@ func runC18Layout(res *Result, pool *DrvPool, r *Rng, idx int) {
 	}
 	rootsOK := first.RemoteGoroot.String() == wantGoroot && jsonStr(first.RemoteGopaths) == jsonStr(sortedPairs(wantGP)) && jsonStr(first.LocalGomods) == jsonStr(sortedPairs(wantMods))
 	if !rootsOK {
-		nested := false
-		for root, d := range detected {
-			if d && root.Nested && detected[root.Outer] {
-				nested = true
-			}
-		}
-		f := Finding{Stream: "layout", What: "detected roots differ from the generating layout", Op: describe,
-			Expected: map[string]interface{}{"goroot": wantGoroot, "gopaths": wantGP, "gomods": wantMods},
-			Got:      map[string]interface{}{"goroot": first.RemoteGoroot.String(), "gopaths": first.RemoteGopaths, "gomods": first.LocalGomods}}
 		if nested {
 			res.Count("observed:nested-root-shadowed-roots")
-			res.KnownFinding("C18-nested-root-shadowed", f)
 		} else {
-			res.Violation(f)
+			res.Violation(Finding{Stream: stream, What: "detected roots differ from the generating layout", Op: describe,
+				Expected: map[string]interface{}{"goroot": wantGoroot, "gopaths": wantGP, "gomods": wantMods},
+				Got:      map[string]interface{}{"goroot": first.RemoteGoroot.String(), "gopaths": first.RemoteGopaths, "gomods": first.LocalGomods}})
 		}
 	}
 	for t := range l.Tags {
-		res.Count("layout:" + t)
+		res.Count(stream + ":" + t)
 	}
-	res.Count(fmt.Sprintf("layout:gopaths-%d", len(l.Gopaths)))
-	res.Eval("layout:"+txt+strings.Join(sortedKeys(l.Files), "|"), nontrivial)
+	res.Count(fmt.Sprintf("%s:gopaths-%d", stream, len(l.Gopaths)))
+	res.Eval(stream+":"+txt+strings.Join(sortedKeys(l.Files), "|"), nontrivial)
 	if idx < 2 {
 		res.Sample(describe)
 	}
@@ -820,10 +852,10 @@ func runC18Layout(res *Result, pool *DrvPool, r *Rng, idx int) {
 	// file of the layout
 	for _, f := range files {
 		if _, ok := l.Files[f.String()]; !ok {
-			res.Disagree(Finding{Stream: "layout", What: "the disk has a file the layout did not create: " + f.String(), Op: describe})
+			res.Disagree(Finding{Stream: stream, What: "the disk has a file the layout did not create: " + f.String(), Op: describe})
 		}
 	}
-	c18SendRoots(res, pool, "S18 roots(layout)", &c18RootsOp{Op: "roots", Gs: pre, Goroot: hb(l.Goroot), Gopaths: hbs(l.Gopaths), Files: files, Gomods: gomods}, first)
+	c18SendRoots(res, pool, "S18 roots("+stream+")", &c18RootsOp{Op: "roots", Gs: pre, Goroot: hb(l.Goroot), Gopaths: hbs(l.Gopaths), Files: files, Gomods: gomods}, first)
 }
 
 func sortedKeys(m map[string]string) []string {
@@ -949,8 +981,9 @@ func runC18Hostile(res *Result, pool *DrvPool, r *Rng, idx int) {
 		}
 	}
 	if first.Panic != "" {
+		// findRoots_no_panic: no input and no disk content makes guessPaths panic
 		res.Count("hostile:impl-panic")
-		res.KnownFinding("C18-findRoots-slice-panic", Finding{Stream: "hostile", What: "guessPaths panicked: " + first.Panic, Op: describe})
+		res.Violation(Finding{Stream: "hostile", What: "guessPaths panicked: " + first.Panic, Op: describe})
 	} else {
 		// the stale fields of a call resolved before are not part of the
 		// invariants: compare against a pre-state and skip those
@@ -959,14 +992,44 @@ func runC18Hostile(res *Result, pool *DrvPool, r *Rng, idx int) {
 		}
 		if w := c18RootsArePrefixes(pre, &first); w != "" && remoteGoroot == "" {
 			if unclean {
+				// splitPath normalises (//, trailing /, invalid UTF-8): the root is a
+				// prefix of the normalised path only (detected_gopath_is_prefix)
 				res.Count("observed:root-not-prefix-on-unclean-path")
 			} else {
-				res.Count("observed:root-not-prefix-on-clean-path")
-				res.KnownFinding("C18-root-not-prefix", Finding{Stream: "hostile", What: w, Op: describe, Got: first})
+				// detected_gopath_clean / detected_goroot_clean
+				res.Violation(Finding{Stream: "hostile", What: w, Op: describe, Got: first})
 			}
 		}
 		if len(first.RemoteGopaths)+len(first.LocalGomods) > 0 || first.RemoteGoroot != "" {
 			res.Count("hostile:some-root")
+		}
+		// distribution: how often the first local match of a frame's suffix is
+		// not preceded by the src (pkg/mod) directory, the case the HasSuffix
+		// test of findRoots rejects (it used to panic or invent a root)
+		for gi := range pre {
+			for ci := range pre[gi].Sig.Stack.Calls {
+				parts := stack.VerifSplitPath(pre[gi].Sig.Stack.Calls[ci].Remote.String())
+				probe := func(local, dir string) {
+					if local == "" && dir == "/src" && l.Goroot == "" {
+						return
+					}
+					for i := 1; i < len(parts); i++ {
+						if st, err := os.Stat(local + dir + "/" + strings.Join(parts[i:], "/")); err == nil && !st.IsDir() {
+							if strings.HasSuffix(strings.Join(parts[:i], "/"), dir) {
+								res.Count("hostile:first-match-after" + dir)
+							} else {
+								res.Count("hostile:first-match-not-after" + dir)
+							}
+							return
+						}
+					}
+				}
+				probe(l.Goroot, "/src")
+				for _, gp := range l.Gopaths {
+					probe(gp, "/src")
+					probe(gp, "/pkg/mod")
+				}
+			}
 		}
 	}
 	res.Eval("hostile:"+jsonStr(describe), first.Panic == "" && (len(first.RemoteGopaths)+len(first.LocalGomods) > 0 || first.RemoteGoroot != ""))
@@ -1112,10 +1175,14 @@ func runC18Fn(res *Result, pool *DrvPool, r *Rng) {
 }
 
 func runC18(prop string, res *Result, pool *DrvPool, r *Rng) {
-	res.Rule = "layout stream: a generated tree (0..1 GOROOT, 0..3 GOPATHs with src and pkg/mod, go.mod modules at several depths in 9 go.mod spellings, nested modules, go-run files, some referenced files absent) is written under a temporary directory, remote roots are renamed (other prefix, same as local, nested in another root's src, sibling name extension) and a dump referencing the frames is printed and scanned with GuessPaths; every case runs 1+6 times; the oracle is the generating layout. hostile stream: constructed snapshots over a colliding tree with unclean/relative/non-UTF-8 paths, preset classes and roots. updloc stream: Call.updateLocations on generated maps with nested and tied keys. fn stream: splitPath/reModule/path.Dir on strings over a hostile alphabet. non-trivial = at least one frame is mapped (layout, updloc), a root is detected (hostile), several parts or a module match (fn); distinct by hash of the input and tree"
+	res.Rule = "layout stream: a generated tree (0..1 GOROOT, 0..3 pairwise disjoint GOPATHs with src and pkg/mod, go.mod modules at several depths in 9 go.mod spellings, go-run files, some referenced files absent; no root inside another root) is written under a temporary directory, remote roots are renamed (other prefix, same as local, sibling name extension) and a dump referencing the frames is printed and scanned with GuessPaths; every case runs 1+6 times; the oracle is the generating layout. nested stream: the same generator plus remote GOPATHs nested in another root's src and modules nested in a module (outside the property): 1+6 identical runs and model correspondence only, the relation to the layout is counted as observed:*. hostile stream: constructed snapshots over a colliding tree with unclean/relative/non-UTF-8 paths, preset classes and roots. updloc stream: Call.updateLocations on generated maps with nested and tied keys. fn stream: splitPath/reModule/path.Dir on strings over a hostile alphabet. non-trivial = at least one frame is mapped (layout, updloc), a root is detected (hostile), several parts or a module match (fn); distinct by hash of the input and tree"
 	nl := countN(res.Tier, 400, 12000)
 	for i := 0; i < nl; i++ {
-		runC18Layout(res, pool, r.Fork(), i)
+		runC18Layout(res, pool, r.Fork(), i, false)
+	}
+	nn := countN(res.Tier, 120, 4000)
+	for i := 0; i < nn; i++ {
+		runC18Layout(res, pool, r.Fork(), i, true)
 	}
 	nh := countN(res.Tier, 400, 12000)
 	for i := 0; i < nh; i++ {
